@@ -303,3 +303,26 @@ pub fn slow_lane() -> bool {
 pub fn mix(i: u64) -> u64 {
     splitmix64(i ^ 0x51ed_270b) >> 3
 }
+
+// ---------------------------------------------------------------------------
+// watch on the process-global allocator (see main.rs)
+
+static GWATCH_ON: std::sync::atomic::AtomicBool = std::sync::atomic::AtomicBool::new(false);
+static GWATCH_MAX: std::sync::atomic::AtomicUsize = std::sync::atomic::AtomicUsize::new(0);
+
+#[inline]
+pub fn galloc_note(size: usize) {
+    if GWATCH_ON.load(Ordering::Relaxed) {
+        GWATCH_MAX.fetch_max(size, Ordering::Relaxed);
+    }
+}
+/// Starts recording the largest single request made to the global allocator.
+pub fn galloc_watch_start() {
+    GWATCH_MAX.store(0, Ordering::Relaxed);
+    GWATCH_ON.store(true, Ordering::Relaxed);
+}
+/// Stops recording; returns the largest request seen since `galloc_watch_start`.
+pub fn galloc_watch_stop() -> usize {
+    GWATCH_ON.store(false, Ordering::Relaxed);
+    GWATCH_MAX.load(Ordering::Relaxed)
+}
